@@ -104,23 +104,26 @@ Section Events.
     apply (extract_folders_ok (files_of h) (folder_of h) (List.length (h_streams h)) 0%nat). rewrite X. exact H.
   Qed.
 
-  Lemma read_back_ok isfile fs e : In e (read_back cwd base isfile fs) -> confined_b base (ev_path e) = true.
+  Lemma read_back_ok max_mem isfile dsize fs e :
+    In e (read_back cwd base max_mem isfile dsize fs) -> confined_b base (ev_path e) = true.
   Proof.
     induction fs as [|f r IH]; simpl; [tauto|].
     destruct (safe_join cwd base (f_name f)) as [p|] eqn:J; [|exact IH].
     pose proof (safe_join_normal _ _ _ _ Hn J) as C.
-    destruct (isfile p); simpl; intuition (subst; simpl; auto).
+    destruct (isfile p); [destruct (max_mem <? dsize p)|]; simpl; intuition (subst; simpl; auto).
   Qed.
 
-  (* reads of the read-back are files for which isfile answered true *)
-  Lemma read_back_reads isfile fs p :
-    In p (reads (read_back cwd base isfile fs)) -> isfile p = true /\ confined_b base p = true.
+  (* reads of the read-back are files for which isfile answered true and whose size on disk is within the limit *)
+  Lemma read_back_reads max_mem isfile dsize fs p :
+    In p (reads (read_back cwd base max_mem isfile dsize fs)) ->
+    isfile p = true /\ confined_b base p = true /\ (max_mem <? dsize p) = false.
   Proof.
     induction fs as [|f r IH]; simpl; [tauto|].
     destruct (safe_join cwd base (f_name f)) as [q|] eqn:J; [|exact IH].
     pose proof (safe_join_normal _ _ _ _ Hn J) as C.
     destruct (isfile q) eqn:I; simpl; [|exact IH].
-    intros [<-|H]; [split; assumption | apply IH; exact H].
+    destruct (max_mem <? dsize q) eqn:S; simpl; [exact IH|].
+    intros [<-|H]; [repeat split; assumption | apply IH; exact H].
   Qed.
 
   Lemma write_files_no_reads fs off len : reads (fst (write_files cwd base okd okw fs off len)) = [].
@@ -170,31 +173,43 @@ Proof.
   specialize (F _ M). rewrite C in F. discriminate.
 Qed.
 
-Lemma run_7z_events_ok cwd base dec okd okw skip max_mem host h e :
+Lemma run_7z_events_ok cwd base dec okd okw skip max_mem host dsize h e :
   normal_base cwd base = true ->
-  In e (run_7z cwd base dec okd okw skip max_mem host h) -> ev_ok base e.
+  In e (run_7z cwd base dec okd okw skip max_mem host dsize h) -> ev_ok base e.
 Proof.
   intros Hn. unfold run_7z.
   pose proof (extractall_ok cwd base dec okd okw Hn h) as A.
   destruct (extractall cwd base dec okd okw h) as [es ok]. simpl in A.
   destruct ok; [|apply A].
   rewrite in_app_iff. intros [H|H]; [apply A; exact H|].
-  left. exact (read_back_ok cwd base okd okw Hn _ _ _ H).
+  left. exact (read_back_ok cwd base okd okw Hn _ _ _ _ _ H).
 Qed.
 
-Lemma run_7z_reads_written cwd base dec okd okw skip max_mem host h p :
+Lemma run_7z_reads_written cwd base dec okd okw skip max_mem host dsize h p :
   normal_base cwd base = true -> fresh base host = true ->
-  In p (reads (run_7z cwd base dec okd okw skip max_mem host h)) ->
-  In p (writes (run_7z cwd base dec okd okw skip max_mem host h)) /\ confined_b base p = true.
+  In p (reads (run_7z cwd base dec okd okw skip max_mem host dsize h)) ->
+  In p (writes (run_7z cwd base dec okd okw skip max_mem host dsize h)) /\ confined_b base p = true.
 Proof.
   intros Hn F. unfold run_7z.
   pose proof (extractall_no_reads cwd base dec okd okw h) as NR.
   destruct (extractall cwd base dec okd okw h) as [es ok]. simpl in NR.
   destruct ok; [|rewrite NR; simpl; tauto].
   unfold reads, writes. rewrite !flat_map_app. fold (reads es). rewrite NR. simpl.
-  intro H. apply (read_back_reads cwd base okd okw Hn) in H as [I C].
+  intro H. apply (read_back_reads cwd base okd okw Hn) in H as [I [C _]].
   split; [|exact C]. apply in_app_iff. left.
   rewrite (fresh_no_host _ _ _ F C), orb_false_r in I. apply mem_str_In. exact I.
+Qed.
+
+Lemma run_7z_reads_within_limit cwd base dec okd okw skip max_mem host dsize h p :
+  normal_base cwd base = true ->
+  In p (reads (run_7z cwd base dec okd okw skip max_mem host dsize h)) -> dsize p <= max_mem.
+Proof.
+  intros Hn. unfold run_7z.
+  pose proof (extractall_no_reads cwd base dec okd okw h) as NR.
+  destruct (extractall cwd base dec okd okw h) as [es ok]. simpl in NR.
+  destruct ok; [|rewrite NR; simpl; tauto].
+  unfold reads. rewrite flat_map_app. fold (reads es). rewrite NR. simpl.
+  intro H. apply (read_back_reads cwd base okd okw Hn) in H as [_ [_ S]]. lia.
 Qed.
 
 (* ------------------------------------------------------------------ skip rules *)
@@ -375,9 +390,9 @@ Proof.
     + destruct sizes as [|sz sizes']; cbn [filter]; rewrite IH; reflexivity.
 Qed.
 
-Lemma run_7z_drop cwd base dec okd okw skip max_mem host h :
-  run_7z cwd base dec okd okw skip max_mem host h
-  = run_7z cwd base dec okd okw skip max_mem host (drop_streamless h).
+Lemma run_7z_drop cwd base dec okd okw skip max_mem host dsize h :
+  run_7z cwd base dec okd okw skip max_mem host dsize h
+  = run_7z cwd base dec okd okw skip max_mem host dsize (drop_streamless h).
 Proof.
   unfold run_7z. rewrite <- extractall_drop.
   assert (T : to_process skip max_mem h = to_process skip max_mem (drop_streamless h)).
